@@ -68,7 +68,13 @@ def gen_plan(rng, index, tier):
             fr["vid"] = src["vid"]
         out.append(fr)
     plan["frames"] = out
-    plan["batch"] = rng.choice([2, 2, 3, 4, 5, 6])
+    plan["batch"] = rng.choice([2, 2, 2, 3, 3, 4, 5, 6])
+    if kind != "single" and rng.random() < 0.2 and n >= 2 * plan["batch"]:
+        # a whole batch without any detection, after a batch that had some (state kept from the previous batch must not leak in)
+        b = plan["batch"]
+        j = rng.randint(1, n // b - 1)
+        for k in range(j * b, min((j + 1) * b, n)):
+            out[k]["animals"] = []
     plan["provider"] = "labels" if mixed else rng.choice(["labels", "labels", "video"])
     if plan["provider"] == "labels":
         fidxs = list(range(10))
@@ -212,7 +218,7 @@ def execute(plan, choices=None):
     violations = []
     probes = {"frames_compared": 0, "batches_with_mixed_content": 0, "empty_frames_in_batch": 0, "max_instances_binding": 0,
               "partial_last_batch": 0, "fault_cut_stream": 0, "permuted_run_compared": 0, "two_videos": 0, "degenerate_tie_scene_skipped": 0,
-              "border_scene": int(bool(plan.get("border"))), "mixed_frame_sizes": int("sizes" in plan and len({tuple(x) for x in plan["sizes"]}) > 1)}
+              "border_scene": int(bool(plan.get("border"))), "whole_batch_empty": 0, "mixed_frame_sizes": int("sizes" in plan and len({tuple(x) for x in plan["sizes"]}) > 1)}
 
     def V(kind, where, detail):
         violations.append({"kind": kind, "sig": f"{kind}:{where}", "detail": detail})
@@ -274,6 +280,8 @@ def execute(plan, choices=None):
                     probes["empty_frames_in_batch"] += 1
                 if len(grp) < b:
                     probes["partial_last_batch"] = 1
+                if s0 > 0 and len(grp) == b and all(len(g["animals"]) == 0 for g in grp):
+                    probes["whole_batch_empty"] = 1
             extra = set(A) - set(want_keys)
             if extra:
                 V("wrong_index", kind, f"records carry (video,frame) indices {sorted(extra)} that no delivered frame has; delivered {want_keys}")
@@ -288,9 +296,6 @@ def execute(plan, choices=None):
                     exp = sorted(exp, key=lambda t: -t[2])[:mi]
                 got = A.get(key, {"insts": [], "orig": None, "eff": None})
                 gi = list(got["insts"])
-                if kind == "topdown":
-                    gi = [t for t in gi if not np.isnan(t[0]).all()]
-                    exp = [t for t in exp if not np.isnan(t[0]).all()]
                 d = same_instances(gi, exp)
                 probes["frames_compared"] += 1
                 if d:
@@ -316,8 +321,8 @@ def execute(plan, choices=None):
                     C = {(0, order[k[1]]): v for k, v in C.items()}
                 probes["permuted_run_compared"] = 1
                 for key in set(A) | set(C):
-                    ga = [t for t in A.get(key, {"insts": []})["insts"] if not np.isnan(t[0]).all()] if kind == "topdown" else A.get(key, {"insts": []})["insts"]
-                    gc = [t for t in C.get(key, {"insts": []})["insts"] if not np.isnan(t[0]).all()] if kind == "topdown" else C.get(key, {"insts": []})["insts"]
+                    ga = A.get(key, {"insts": []})["insts"]
+                    gc = C.get(key, {"insts": []})["insts"]
                     d = same_instances(ga, gc)
                     if d:
                         V("depends_on_order", kind, f"frame {key}: result changes when the frames are processed in order {order}: {d}")
